@@ -47,8 +47,11 @@ class NumText:
 
 
 class Unspec:
-    def __init__(self, reason):
+    """the DMN text does not decide the value; `never` lists values that NO reading of it allows"""
+
+    def __init__(self, reason, never=()):
         self.reason = reason
+        self.never = tuple(never)
 
 
 class Lambda:
@@ -958,14 +961,26 @@ def f_stddev(args):
     return Approx(var)
 
 
+def _deep_has(x, v):
+    return x is v or (isinstance(x, list) and any(_deep_has(y, v) for y in x))
+
+
 def _all_any(args, decisive):
-    items = _items(args)
+    try:
+        items = _items(args)
+    except _Out as o:
+        if isinstance(o.result, Unspec) and any(_deep_has(a, decisive) for a in args):
+            raise _Out(Unspec(o.result.reason, (not decisive,)))
+        raise
+    # whichever way lists among several arguments and items that are not booleans are read (an error: null; the deciding item wins; nested
+    # lists flattened), `all` is never true with a false among the arguments and `any` never false with a true among them
+    never = (not decisive,) if any(_deep_has(a, decisive) for a in args) else ()
     if any(kind(x) == "list" for x in items):
-        return Unspec(U_NESTED_AGG)
+        return Unspec(U_NESTED_AGG, never)
     foreign = any(kind(x) not in ("boolean", "null") for x in items)
     if any(x is decisive for x in items):
         if foreign:
-            return Unspec(U_NONBOOL_ITEM)
+            return Unspec(U_NONBOOL_ITEM, never)
         return Exact(decisive)
     if foreign or any(x is None for x in items):
         return NULL
